@@ -162,6 +162,44 @@ def specOfJson (T : Tables) (d : JDoc) : Option Shape :=
       | none => none
       | some ex => some ⟨su, co, ex⟩
 
+/-! ### importer options
+
+`TLSExtensionsJSONUnmarshaler.AllowUnknownExt` (JSON counterpart of the raw importer's blunt mimicry): a
+name the dictionary knows but for which `ExtensionFromID` returns nil imports as a `GenericExtension` with
+that code point instead of failing.  (`UseRealPSK` only selects the type of the pre_shared_key extension;
+the code point and the name lists are the same, so it does not show at this level.) -/
+
+def decodeExtOpt (T : Tables) (nilIds : List Nat) (allowUnknown : Bool) (e : JExt) : Option SExt :=
+  match decodeExt T e with
+  | some s => some s
+  | none =>
+    if allowUnknown && !(e.name == greaseName) then
+      match lookup T.extN e.name with
+      | some id => if nilIds.contains id then some ⟨id, []⟩ else none
+      | none => none
+    else none
+
+def decodeExtsOpt (T : Tables) (nilIds : List Nat) (allowUnknown : Bool) : List JExt → Option (List SExt)
+  | [] => some []
+  | e :: t =>
+    match decodeExtOpt T nilIds allowUnknown e with
+    | none => none
+    | some s =>
+      match decodeExtsOpt T nilIds allowUnknown t with
+      | none => none
+      | some ss => some (s :: ss)
+
+def specOfJsonOpt (T : Tables) (nilIds : List Nat) (allowUnknown : Bool) (d : JDoc) : Option Shape :=
+  match decodeNames true T.suitesN d.suites with
+  | none => none
+  | some su =>
+    match decodeNames false T.compN d.comps with
+    | none => none
+    | some co =>
+      match decodeExtsOpt T nilIds allowUnknown d.exts with
+      | none => none
+      | some ex => some ⟨su, co, ex⟩
+
 /-- producer direction for one extension of a hello. -/
 def renderExt (T : Tables) (s : SExt) : Option JExt :=
   if isGrease s.id then some ⟨greaseName, []⟩
